@@ -46,10 +46,23 @@ def partitions(rng, b, tier):
         k = rng.randint(2, 6)
         cs = sorted(rng.sample(range(1, n), min(k, n - 1)))
         yield "random", [b[i:j] for i, j in zip([0] + cs, cs + [n])]
-    if tier == "thorough" and n <= 400:
-        for _ in range(1500):
-            c1, c2 = sorted(rng.sample(range(1, n), 2))
-            yield "cut2", [b[:c1], b[c1:c2], b[c2:]]
+    # two and three cuts: a first write that ends inside the first entry (nothing complete yet), middle writes that
+    # complete entries, a last write that only completes the last entry - state kept between writes must stay consistent
+    seps = [i + 2 for i in range(n - 1) if b[i:i + 2] == b"\n\n"]
+    first_end = seps[0] if seps else n
+    for _ in range(60 if tier == "quick" else 1500):
+        r = rng.random()
+        if r < 0.4 and n > 8:
+            c1 = rng.randint(max(1, first_end - 12), max(1, first_end - 2))
+            c2 = rng.randint(max(c1 + 1, n - 60), n - 1) if n - 1 > c1 + 1 else c1 + 1
+            cs = sorted({c1, c2})
+        elif r < 0.7:
+            cs = sorted(rng.sample(range(1, n), min(2, n - 1)))
+        else:
+            cs = sorted(rng.sample(range(1, n), min(3, n - 1)))
+        cs = [c for c in cs if 0 < c < n]
+        if cs:
+            yield "cut%d" % len(cs), [b[i:j] for i, j in zip([0] + cs, cs + [n])]
 
 
 def generate(rng, tier):
